@@ -255,6 +255,46 @@ def _run_shard(binary, lines, timeout):
     return out
 
 
+FINGERPRINT = os.path.join(ROOT, "source_fingerprint.json")
+
+
+def source_fingerprint():
+    """sha256 of every file the harness is compiled from in /repo (src/**/*.rs, Cargo.toml)"""
+    import hashlib
+    out = {}
+    files = [os.path.join(REPO, "Cargo.toml")]
+    for base, _dirs, names in os.walk(os.path.join(REPO, "src")):
+        files += [os.path.join(base, n) for n in names if n.endswith(".rs")]
+    for f in sorted(files):
+        try:
+            out[os.path.relpath(f, REPO)] = hashlib.sha256(open(f, "rb").read()).hexdigest()
+        except OSError:
+            pass
+    return out
+
+
+def source_changes():
+    """files of /repo that differ from the tree this framework was last validated against (source_fingerprint.json, written by
+    tools/fingerprint.py, never at check time).  Not a verdict of any kind: a changed file only makes the quick tier generate the
+    thorough tier's volume of cases, because changed code is where a correspondence break is to be looked for."""
+    if os.environ.get("VERIF_NO_BOOST") or not os.path.exists(FINGERPRINT):
+        return []
+    ref = json.load(open(FINGERPRINT))
+    cur = source_fingerprint()
+    return sorted(k for k in set(cur) | set(ref) if cur.get(k) != ref.get(k))
+
+
+def norm_out(case, out):
+    """What is compared between implementation and model.  For a refused build, WHICH of several defects of the file is
+    reported is no property's business (C03: 'refused with an error'): it depends on the order in which the builder happens to
+    validate (streaming, or all sections first), and a harmless reordering must not break the correspondence.  The kinds the
+    properties do name are checked where they are named: C05's section errors on the `sections` command (compared exactly), C08's
+    'surfaces as an I/O error' by its oracle on the raw output, C12's 'same error kind under every encoding' by its oracle."""
+    if out is not None and out.startswith("err ") and case.split(" ", 1)[0] in ("build", "dump", "threads"):
+        return "err"
+    return out
+
+
 def run_cases(binary, cases, timeout=900):
     if not cases:
         return []
